@@ -254,6 +254,31 @@ def _as_dependency(rec, dep, own):
     return dep
 
 
+def _group_into_predicates(rec, suites):
+    """Two consecutive path dependencies that designate two tests in project order are declared -- one time in three -- by ONE
+    predicate true of both and of the depending test itself: it yields exactly these two, in project order
+    (Model/DepsPred.v: pred_yields), so the path form the model works with is unchanged."""
+    import zlib
+    from lemoncheesecake.testtree import flatten_tests
+    tests = list(flatten_tests(suites))
+    order = [t.path for t in tests]
+    known = getattr(rec, "known_test_paths", set())
+    for t in tests:
+        deps, out, i = list(t.dependencies), [], 0
+        while i < len(deps):
+            a = deps[i]
+            b = deps[i + 1] if i + 1 < len(deps) else None
+            if (isinstance(a, str) and isinstance(b, str) and a != b and a in known and b in known and t.path not in (a, b)
+                    and order.index(a) < order.index(b) and zlib.crc32(("%s+%s<-%s" % (a, b, t.path)).encode()) % 3 == 0):
+                out.append(lambda x, ext=frozenset((a, b, t.path)): x.path in ext)
+                rec.predicate_deps_multi = getattr(rec, "predicate_deps_multi", 0) + 1
+                i += 2
+            else:
+                out.append(a)
+                i += 1
+        t.dependencies = out
+
+
 class GeneratedProject(Project):
     def __init__(self, project_dir, suites, fixtures):
         super().__init__(project_dir)
@@ -273,4 +298,5 @@ def build_project(rec, pd, project_dir):
     rec.known_test_paths = set(p for p in paths if paths.count(p) == 1)
     fixtures = [build_fixture(rec, fd) for fd in pd.get("fixtures", [])]
     suites = [build_suite(rec, sd) for sd in pd.get("suites", [])]
+    _group_into_predicates(rec, suites)
     return GeneratedProject(project_dir, suites, fixtures)
